@@ -1,0 +1,10 @@
+//go:build verif
+
+// Contracts for the deductive verifier in /verif (comment-only file; compiled
+// only with -tags verif and declares nothing).
+
+package value
+
+//@ # The type of a value is a fixed, non-nil attribute of the value (vtype, specs/llvm_types.spec).
+//@ func iface Value.Type
+//@   ensures result == vtype(self) && result != nil
